@@ -46,7 +46,9 @@ inline bool check_civil(const zp::Zone& z, const zp::Handle& h, i128 csecs, std:
     EV->excl("crowded_change"); if (cls) *cls = "excluded"; return true;   // known finding R8
   }
   if (!a.consistent) { EV->unspec("civil_time_near_crowded_changes(model_inconsistent)"); if (cls) *cls = "unspecified"; return true; }
-  if (m.pre_first_unspecified && !m.f.trans.empty() && std::min(a.pre, a.post) <= (i128)m.f.trans.front().t) {
+  // legacy files (type 0 DST and referenced): the type before the first transition is outside the property, and so
+  // is every civil time whose reading can involve it (offsets span < 48 h)
+  if (m.pre_first_unspecified && !m.f.trans.empty() && csecs - 2 * 86400 <= (i128)m.f.trans.front().t) {
     EV->unspec("before_first_transition_with_DST_type0_referenced"); if (cls) *cls = "unspecified"; return true;
   }
   const int64_t epre = refcal::clamp64(a.pre), etr = refcal::clamp64(a.trans), epost = refcal::clamp64(a.post);
